@@ -1418,3 +1418,111 @@ Proof.
   apply (denote_written s c' all d (HW all HWr) HD).
 Qed.
 End Main.
+
+(* ---- doc_ids_distinct: the xmi:ids of the written document are 0 for cas:NULL, the ids of the structures and the ids of
+   the sofas, all distinct ---- *)
+Lemma insert_id_perm x l : Permutation (insert_id x l) (x :: l).
+Proof.
+  induction l as [|y r IH]; cbn [insert_id]; [apply Permutation_refl|].
+  destruct (fst x <=? fst y); [apply Permutation_refl|].
+  apply perm_trans with (y :: x :: r); [apply perm_skip; exact IH|apply perm_swap].
+Qed.
+Lemma sort_ids_perm l : Permutation (sort_ids l) l.
+Proof.
+  unfold sort_ids. induction l as [|x r IH]; [apply Permutation_refl|]. cbn [fold_right].
+  apply perm_trans with (x :: fold_right insert_id [] r); [apply insert_id_perm|apply perm_skip; exact IH].
+Qed.
+
+Section Ids.
+Variable fmt_flt : flt -> string.
+Lemma enc_fs_id s c ns i f e : enc_fs fmt_flt s c ns i f = Ok e -> x_id e = Ok i.
+Proof.
+  unfold enc_fs. intros H.
+  repeat match goal with
+  | H : (do _ <- ?x ;; _) = Ok _ |- _ => destruct x eqn:?; cbn [bind] in H; try discriminate
+  | H : match ?x with _ => _ end = Ok _ |- _ => destruct x eqn:?; try discriminate
+  | H : (if ?x then _ else _) = Ok _ |- _ => destruct x eqn:?; try discriminate
+  | H : Ok _ = Ok _ |- _ => injection H as <-
+  end; apply x_id_cons.
+Qed.
+
+Lemma enc_sofa_id h so e : enc_sofa h so = Ok e -> x_id e = Ok (s_xid so).
+Proof.
+  unfold enc_sofa. destruct (match s_arr so with None => Ok None | Some o => do a <- id_str h o ;; Ok (Some a) end);
+    cbn [bind]; try discriminate.
+  intros H. injection H as <-. unfold x_id, xattr. cbn [x_attrs app alookup]. rewrite String.eqb_refl.
+  unfold int_attr. rewrite s2z_z2s. reflexivity.
+Qed.
+Theorem doc_ids_distinct s c all d :
+  wf_xmib s c all = true -> write_doc fmt_flt s c all = Ok d ->
+  exists idl, mapM x_id (filter (fun e => negb (is_view e)) d) = Ok idl /\ NoDup idl
+              /\ Permutation idl (0 :: map fst all ++ map (fun v => s_xid (v_sofa v)) (c_views c))
+              /\ mapM x_id (filter is_null d) = Ok [0].
+Proof.
+  intros WF H. unfold write_doc in H.
+  destruct (enc_all fmt_flt s c ns_init (sort_ids all)) as [fss| |] eqn:EF; cbn [bind] in H; try discriminate.
+  destruct (mapM (fun v => enc_sofa (c_heap c) (v_sofa v)) (c_views c)) as [ses| |] eqn:ES; cbn [bind] in H; try discriminate.
+  destruct (mapM (enc_view (c_heap c)) (c_views c)) as [ves| |] eqn:EV; cbn [bind] in H; try discriminate.
+  injection H as <-.
+  unfold wf_xmib in WF. set (ids := map fst all) in *. set (sids := map (fun v => s_xid (v_sofa v)) (c_views c)) in *.
+  apply andb_prop in WF. destruct WF as [WF W4]. apply andb_prop in WF. destruct WF as [WF W3].
+  apply andb_prop in WF. destruct WF as [W1 W2]. apply nodupZ_NoDup in W1.
+  pose proof (enc_all_inv fmt_flt s c _ _ _ ns_inv_init EF) as E1.
+  assert (forall io, In io (sort_ids all) -> fs_okb s c ids io = true) as OK4.
+  { intros io Hi. apply sort_ids_in in Hi. apply (forallb_In _ _ _ W4 Hi). }
+  apply mapM_inv in ES. apply mapM_inv in EV.
+  assert (Forall2 (fun v e => x_id e = Ok (s_xid (v_sofa v)) /\ is_sofa e = true /\ is_null e = false /\ is_view e = false)
+                  (c_views c) ses) as S2.
+  { apply (Forall2_impl_in _ _ _ _ ES). intros v e Hv HE.
+    destruct (dec_enc_sofa c ids v e (forallb_In _ _ _ W3 Hv) HE) as [_ R]. split; [|exact R].
+    apply (enc_sofa_id _ _ _ HE). }
+  assert (Forall2 (fun v e => is_view e = true /\ is_null e = false) (c_views c) ves) as V2.
+  { apply (Forall2_impl_in _ _ _ _ EV). intros v e Hv HE.
+    destruct (dec_enc_view c ids v e (forallb_In _ _ _ W3 Hv) HE) as [_ R]. tauto. }
+  assert (Forall2 (fun io e => x_id e = Ok (fst io) /\ is_fs e = true) (sort_ids all) fss) as F2.
+  { apply (Forall2_impl_in _ _ _ _ E1). intros io e Hio R. split.
+    - destruct R as [f [_ HE]]. apply (enc_fs_id _ _ _ _ _ _ HE).
+    - apply (elem_is_fs fmt_flt s c ids io e R (OK4 io Hio)). }
+  assert (forall e, is_fs e = true -> is_view e = false /\ is_null e = false) as FSN.
+  { intros e. unfold is_fs. destruct (is_null e), (is_sofa e), (is_view e); cbn; intros; try discriminate; split; reflexivity. }
+  assert (filter (fun e => negb (is_view e)) (null_elem :: fss ++ ses ++ ves) = null_elem :: fss ++ ses) as FL1.
+  { cbn [filter]. change (negb (is_view null_elem)) with true. cbv iota. f_equal. rewrite !filter_app.
+    rewrite (filter_all _ fss).
+    2:{ intros e He. destruct (Forall2_in_r _ _ _ e F2 He) as [io [_ [_ R]]]. destruct (FSN e R) as [-> _]. reflexivity. }
+    rewrite (filter_all _ ses).
+    2:{ intros e He. destruct (Forall2_in_r _ _ _ e S2 He) as [v [_ [_ [_ [_ R]]]]]. rewrite R. reflexivity. }
+    rewrite (filter_none _ ves).
+    2:{ intros e He. destruct (Forall2_in_r _ _ _ e V2 He) as [v [_ [R _]]]. rewrite R. reflexivity. }
+    rewrite app_nil_r. reflexivity. }
+  assert (filter is_null (null_elem :: fss ++ ses ++ ves) = [null_elem]) as FL2.
+  { cbn [filter]. change (is_null null_elem) with true. cbv iota. f_equal. rewrite !filter_app.
+    rewrite (filter_none _ fss).
+    2:{ intros e He. destruct (Forall2_in_r _ _ _ e F2 He) as [io [_ [_ R]]]. apply FSN. exact R. }
+    rewrite (filter_none _ ses).
+    2:{ intros e He. destruct (Forall2_in_r _ _ _ e S2 He) as [v [_ R]]. tauto. }
+    rewrite (filter_none _ ves).
+    2:{ intros e He. destruct (Forall2_in_r _ _ _ e V2 He) as [v [_ R]]. tauto. }
+    reflexivity. }
+  exists (0 :: map fst (sort_ids all) ++ sids)%list. rewrite FL1, FL2.
+  assert (mapM x_id (fss ++ ses) = Ok (map fst (sort_ids all) ++ sids)%list) as MI.
+  { assert (forall A B (f : B -> res Z) (h : A -> Z) l l' k k', mapM f l' = Ok (map h l) ->
+              mapM f k' = Ok k -> mapM f (l' ++ k') = Ok (map h l ++ k)%list) as APP.
+    { intros A B f h l. induction l as [|x r IH]; intros l' k k' H1 H2.
+      - destruct l' as [|y l'']; [exact H2|]. cbn [mapM map] in H1. destruct (f y); cbn [bind] in H1; try discriminate.
+        destruct (mapM f l''); discriminate.
+      - destruct l' as [|y l'']; [discriminate|]. cbn [mapM map app] in *.
+        destruct (f y) as [z| |]; cbn [bind] in *; try discriminate.
+        destruct (mapM f l'') as [zs| |] eqn:EM; cbn [bind] in *; try discriminate.
+        injection H1 as -> ->. rewrite (IH l'' k k' EM H2). reflexivity. }
+    apply APP.
+    - apply (mapM_Forall2_ok x_id fst). apply (Forall2_impl_in _ _ _ _ F2). tauto.
+    - unfold sids. apply (mapM_Forall2_ok x_id (fun v => s_xid (v_sofa v))). apply (Forall2_impl_in _ _ _ _ S2). tauto. }
+  assert (Permutation (0 :: map fst (sort_ids all) ++ sids) (0 :: ids ++ sids)) as PM.
+  { apply perm_skip. apply Permutation_app_tail. apply Permutation_map. apply sort_ids_perm. }
+  repeat split.
+  - cbn [mapM]. change (x_id null_elem) with (Ok 0 : res xid). cbn [bind]. rewrite MI. reflexivity.
+  - apply (Permutation_NoDup (l := 0 :: sids ++ ids)); [|exact W1].
+    apply Permutation_sym. apply (perm_trans PM). apply perm_skip. apply Permutation_app_comm.
+  - exact PM.
+Qed.
+End Ids.
